@@ -16,6 +16,8 @@ EMB_QUICK = [
     (65535, 65536, 1, 0),
     (-1, 0, 5, -7),
     (-129, 127, 128, 0),
+    (-1, 128, 127, 0),                  # a negative value next to a maximum exactly on a signed-width boundary
+    (32768, -1, 5, 32767),
     (0, 1, 2, 2 ** 32),                 # absent common beyond uint32
     (2, 1, 0, 2 ** 32 - 1),
     (2 ** 40, 3, -5, 2 ** 32 - 1),
@@ -114,11 +116,14 @@ def run_one(arr, emb, common_sel, use_counts, map_kind, rb, in_minimal, acc, ext
     expected = arr if mapping is None else numpy.vectorize(mapping.get, otypes=[object])(arr).astype(object) if arr.size else arr.astype(object)
     exp_list = numpy.asarray(expected).tolist()
     a_before = a_in.copy()
+    counts_arg = dict(counts) if counts is not None else None
     try:
-        idx = iindex.from_array(a_in, counts=dict(counts) if counts is not None else None, common=common, mapping=dict(mapping) if mapping else None)
+        idx = iindex.from_array(a_in, counts=counts_arg, common=common, mapping=dict(mapping) if mapping else None)
     except Exception as e:  # noqa
         acc.violation("from_array:raised", case, repr(e))
         return True
+    if counts is not None and counts_arg != counts:
+        acc.violation("from_array:mutated-counts", case, "the caller's counts dict changed from %r to %r" % (counts, counts_arg))
     if not numpy.array_equal(a_before, a_in):
         acc.violation("from_array:mutated-input", case, "input array changed")
     if tuple(idx.shape) != tuple(arr.shape):
@@ -407,6 +412,8 @@ def rowscan_one(a, emb7, common, cs, uc, mk, rb, cells, vals, acc, probe=False):
     expected = a if mapping is None else numpy.vectorize(mapping.get, otypes=[object])(a)
     exp_list = numpy.asarray(expected).tolist()
 
+    counts0 = dict(counts) if counts is not None else None
+
     def build():
         return iindex.from_array(a, counts=counts, common=common, mapping=dict(mapping) if mapping else None)
 
@@ -421,6 +428,10 @@ def rowscan_one(a, emb7, common, cs, uc, mk, rb, cells, vals, acc, probe=False):
     except Exception as e:  # noqa
         acc.violation("from_array:raised", case, repr(e))
         return True
+    if counts is not None and counts != counts0:
+        acc.violation("from_array:mutated-counts", case, "the caller's counts dict changed: %r -> %r" % (sorted(counts0.items()), sorted(counts.items())))
+        counts.clear()
+        counts.update(counts0)
     kw = {}
     exp_out = exp_list
     if rb == "int64":
